@@ -72,9 +72,15 @@ LE0 = frozenset([-1, 0])
 
 def hyp(I, a, b):
     """the hypot symbol for arguments a, b in any order / sign"""
+    def forms(q):
+        out = [q, -q]
+        for c in ('abs(%r)' % (q,), 'abs(%r)' % (-q,)):
+            if c in I.syminfo:
+                out.append(Poly.sym(c))         # hypot(|a|, |b|) is hypot(a, b)
+        return out
     cands = []
-    for x in (a, -a):
-        for y in (b, -b):
+    for x in forms(a):
+        for y in forms(b):
             cands.append('hypot(%r,%r)' % (x, y))
             cands.append('hypot(%r,%r)' % (y, x))
     for c in cands:
@@ -97,6 +103,14 @@ def in_disc(I, r, a, b):
         h = hyp(I, a, b)
         if h is not None:
             out &= set(I.infer_signs(st, r - h))
+        # a decided bounding-box test settles the sign as well: |a| > r or |b| > r puts the point outside (hypot >= |a|)
+        for q in (a, b):
+            cands = [q, -q]
+            for c in ('abs(%r)' % (q,), 'abs(%r)' % (-q,)):
+                if c in I.syminfo:
+                    cands.append(Poly.sym(c))
+            if any(I.infer_signs(st, c - r) == frozenset([1]) for c in cands):
+                out &= {-1}
         return frozenset(out)
     return signs
 
